@@ -45,6 +45,10 @@ def dec(c):
             hs = [href() for _ in range(n)]
             vals = c[p:p + n * len(ts)]; p += n * len(ts)
             ops.append("column_batch_at w%d %s %s %s" % (w, ts, hs, vals))
+        elif o == 30:
+            qi, path, arg, n = c[p], c[p + 1], c[p + 2], c[p + 3]; p += 4
+            ast = c[p:p + n]; p += n
+            ops.append("query w%d q#%d path=%d arg=%d ast=%s" % (w, qi, path, arg, ast))
         elif o == 20:
             ops.append("probe " + " ".join(href() for _ in range(w)))
         elif o == 21: ops.append("drop_world w%d" % w)
